@@ -27,12 +27,14 @@ Definition c_nfts (c : col) : list (Z * ninfo) := snd (snd c).
 (** ExportGenesis = GetCollections: classes in id order, NFTs in id order *)
 Definition export (s : state) : genesis := s.
 
-(** types.ValidateGenesis.  [fx]: the repaired validation (commit "fix: nft genesis validation rejects
-    repeated class ids, repeated NFT ids within a class and a creator that is not an address") *)
+(** types.ValidateGenesis = [validate false].  [wf] is the well-formedness InitGenesis relies on and the
+    code does NOT validate (no repeated class / NFT id, every creator an address); every EXPORTED genesis
+    has it (proved); [validate true] = [validate false] plus [wf]. *)
+Definition wf (g : genesis) : bool :=
+  nodupb (map fst g) && forallb (fun c => (0 <=? d_creator (fst (snd c))) && nodupb (map fst (snd (snd c)))) g.
 Definition validate (fx : bool) (g : genesis) : bool :=
   forallb (fun c => d_id_ok (c_info c) && forallb (fun n => n_ok (snd n)) (c_nfts c)) g
-  && (if fx then nodupb (map fst g) && forallb (fun c => (0 <=? d_creator (c_info c)) && nodupb (map fst (c_nfts c))) g
-      else true).
+  && (if fx then wf g else true).
 
 (** InitGenesis: SaveDenom then SaveCollection (= Mint per NFT) per collection; any error panics *)
 Fixpoint imp_nfts (l : list (Z * ninfo)) (ns : list (Z * ninfo)) : option (list (Z * ninfo)) :=
@@ -78,8 +80,9 @@ Record case := mkCase { c_runs : list run }.
 
 Definition views_of (s : state) := (supply_view s, owner_view s).
 
-(** the tree under check contains the repair *)
-Definition fixed_v : bool := true.
+(** the tree under check does NOT contain that change (it was not taken: C12 quantifies over exported
+    geneses of reachable states, not over hand-made ones); the switch documents what would close the gap *)
+Definition fixed_v : bool := false.
 
 Definition corr_run (r : run) : bool :=
   invb (r_sA r)
@@ -97,16 +100,14 @@ Definition corr_run (r : run) : bool :=
      end.
 
 (** clause codes: 1 export does not validate; 2 import panics; 3 second export differs;
-    4 a class / an NFT / an owner reads differently on B; 5 a supply or an owner's list differs on B;
-    6 a (tampered) genesis that ValidateGenesis accepts makes InitGenesis panic *)
+    4 a class / an NFT / an owner reads differently on B; 5 a supply or an owner's list differs on B *)
 Definition prop_run (r : run) : Z :=
   first_code
     [ (1, r_val r);
       (2, r_imp r =? 0);
       (3, match r_gB r with Some g => eqb g (r_gA r) | None => true end);
       (4, match r_sB r with Some b => eqb b (r_sA r) | None => true end);
-      (5, match r_vB r with Some v => eqb v (r_vA r) | None => true end);
-      (6, match r_t r with Some (_, tv, ti) => negb tv || (ti =? 0) | None => true end) ].
+      (5, match r_vB r with Some v => eqb v (r_vA r) | None => true end) ].
 
 Fixpoint check_runs (rs : list run) (i : Z) (corr prop code : Z) : Z * Z * Z :=
   match rs with
